@@ -506,3 +506,67 @@ impl EncodeAttributeValue for PasswordAlgorithms {
     }
 //@end
 }
+
+// ---------------------------------------------------------------- USERNAME (RFC 8489 14.3): UTF-8, fewer than 509 bytes, OpaqueString profile
+pub mod vx_user_name {
+    use super::*;
+//@consts! stun_rs :: mod attributes > mod stun > mod user_name
+//@item! stun_rs :: mod attributes > mod stun > mod user_name > struct UserName
+impl StunAttributeType for UserName {
+    open spec fn spec_type() -> u16 { 0x0006 }
+//@item stun_rs :: mod attributes > mod stun > mod user_name > impl crate::attributes::StunAttributeType for UserName > fn get_type
+//@tags C02 C01
+//@end
+//@item stun_rs :: mod attributes > mod stun > mod user_name > impl crate::attributes::StunAttributeType for UserName > fn attribute_type
+//@tags C02 C01
+//@end
+}
+impl UserName {
+//@item stun_rs :: mod attributes > mod stun > mod user_name > impl UserName > fn new
+//@tags C19 C01
+//@sig
+    pub fn new(value: &str) -> (r: Result<Self, StunError>)
+//@sub "value.as_ref()" => "value"
+//@sub "String::from(name.as_ref())" => "vx_string_from(name.as_ref())"
+//@closure 1
+|| -> (u: UserName)
+    ensures u.0@ == name.chars(),
+//@spec
+    ensures r is Ok <==> opaque_ok(value@) && vstd::utf8::encode_utf8(opaque_prepared(value@)).len() < 509,
+        r is Ok ==> r->Ok_0.0@ == opaque_prepared(value@),
+//@end
+//@item stun_rs :: mod attributes > mod stun > mod user_name > impl UserName > fn as_str
+//@tags C19
+//@spec
+    ensures r@ == self.0@,
+//@end
+}
+impl EncodeAttributeValue for UserName {
+    open spec fn wire(&self, enc: Seq<u8>) -> Seq<u8> { vstd::utf8::encode_utf8(self.0@) }
+    open spec fn encodable(&self, enc: Seq<u8>) -> bool { vstd::utf8::encode_utf8(self.0@).len() < 509 }
+//@item stun_rs :: mod attributes > mod stun > mod user_name > impl EncodeAttributeValue for UserName > fn encode
+//@tags C01 C02 C14
+//@rules R5P
+//@sub "self.as_str().len()" => "vx_str_len(self.as_str())" all
+//@end
+}
+impl DecodeAttributeValue for UserName {
+    // the decoded name is the OpaqueString-enforced form of the wire text
+    open spec fn unwire(raw: Seq<u8>, prefix: Seq<u8>) -> Option<Self> {
+        if raw.len() <= 763 && vstd::utf8::valid_utf8(raw) && opaque_ok(vstd::utf8::decode_utf8(raw)) {
+            Some(UserName(string_of_chars(opaque_enforced(vstd::utf8::decode_utf8(raw)))))
+        } else { None }
+    }
+//@item stun_rs :: mod attributes > mod stun > mod user_name > impl DecodeAttributeValue for UserName > fn decode
+//@tags C01 C02 C03 C19
+//@sub "String::from(name.as_ref())" => "vx_string_from(name.as_ref())"
+//@before "if size > MAX_DECODED_SIZE"
+    proof { vstd::utf8::encode_utf8_decode_utf8(str@); }
+//@stmt "Ok((UserName(vx_string_from(name.as_ref())), size))"
+    proof {
+        assert forall|s0: String| #[trigger] s0@ == name.chars() implies s0 == string_of_chars(name.chars()) by { lemma_string_of_chars(s0); }
+    }
+//@end
+}
+} // mod vx_user_name
+pub use vx_user_name::UserName;
